@@ -18,7 +18,7 @@ MON_FORMULAS = ["InactiveNeverCreates", "Deactivate.Removes", "HandOver.KillsAct
                 "Mandatory.Selector", "Mandatory.PodLabels", "Mandatory.RuntimeFirst", "Mandatory.Image", "Mandatory.Ports",
                 "Mandatory.Env", "Mandatory.Volumes", "Mandatory.Name", "Defaults.Replicas", "Defaults.ServiceAccount",
                 "Defaults.PullPolicy", "Defaults.Security", "Defaults.Scrape", "UserKept", "ServiceMatches", "Service.Selector",
-                "Service.Ports", "Service.Name", "ServiceAccount.PullSecrets", "Settled.Converges", "Settled.AtMostOne",
+                "Service.Ports", "Service.Name", "ServiceAccount.PullSecrets", "ServiceAccount.KeepsPullSecrets", "PermissionRequests", "Settled.Converges", "Settled.AtMostOne",
                 "Settled.Leftover", "Settled.Leftover.Renamed", "Settled.ActiveRuns", "Settled.Health", "Settled.Prereqs"]
 
 # (cfg, share of the replay budget)
